@@ -51,5 +51,6 @@ def prove(chk, module="ChunkProofs"):
     chk.cov["discharged"] = chk.cov.get("discharged", 0) + n
     chk.cov["checker_cmd"] = f"tlapm --cleanfp spec/{module}.tla"
     chk.note(f"TLAPS: all {n} obligations of {module}.tla proved ({what})")
+    chk.rule_extra.append(f"proof: {n} TLAPS obligations of {module}.tla discharged ({what})")
     chk.assumptions.append(f"unbounded arithmetic: proved by TLAPS ({module}.tla), not only evaluated on TLC's finite family")
     return n
